@@ -378,7 +378,8 @@ def worker(job, r):
         for policy in ('userpub', 'pubfile', 'key', 'calendar', 'general'):
             srv.behaviour = ext
             srv.asked = []
-            cmd = 'verify 0 0 %s ext=%d' % (policy, 1 if allowed else 0)
+            # extending not allowed: said so explicitly, or the context field left as KSI_VerificationContext_init made it (the documented default)
+            cmd = 'verify 0 0 %s ext=%s' % (policy, '1' if allowed else rng.choice(['0', 'default']))
             if userpub:
                 cmd += ' pub=' + R.pub_string(*userpub)
             if F is not None:
